@@ -8,7 +8,7 @@ from ..dataflow import flow_of
 from ..model import AnalysisError, FuncInfo, Program, body_walk, calls_in_body, dotted, norm, parent
 from ..poly import Poly, PolyEnv
 from ..props import transparent_casts
-from ..report import Result
+from ..report import Result, depends
 
 TITLE = "One dispersion law, applied identically by every dedispersion path"
 LEVEL = "other"
@@ -25,7 +25,8 @@ EXPLANATION = (
     "row assigned equals the declared output width; (R5) each accepted reference-frequency name resolves to a Header "
     "attribute; (R6) the streamed file dedispersion places block i at i*(gulp-maxdelay) for the very gulp handed to read_plan, "
     "uses maxdelay as both skipback and kernel limit, accumulates into zeros and declares range-length minus maxdelay samples "
-    "(C06's overlap-save rules re-evaluated). Not decided: delay values, monotonicity, float32 rounding-boundary cases, restoration of a pulse."
+    "(C06's overlap-save rules re-evaluated); (R7) the read plan the streamed dedispersion consumes satisfies C01's rules "
+    "(re-evaluated here). Not decided: delay values, monotonicity, float32 rounding-boundary cases, restoration of a pulse."
 )
 KMOD = "sigpyproc.core.kernels"
 PARAMS = "sigpyproc.params"
@@ -470,6 +471,9 @@ def run(prog: Program, res: Result, tier: str) -> None:
         else:
             res.bad("R5", gd, ga[0], f"reference-frequency names {names or '(not a literal set)'} are not resolved through the Header attributes "
                     f"f<name> (fmax/fmin/fcenter/fch1, missing {missing}): a separate lookup can disagree with them (e.g. for ascending bands)", key=key)
+    # ---- R7 the plan the streamed dedispersion consumes (shared with C01) -------------------------------------------
+    depends(res, "R7", prog, tier, "C01", why="the blocks these loops consume come from read_plan: the plan rules of C01 (and, through them, the multi-file stream rules of C02) are re-evaluated here")
+    res.floor("R7", 40)
     res.floor("R1", 12)
     res.floor("R2", 4)
     res.floor("R3", 13)
